@@ -233,8 +233,27 @@ def handle : List String → String
           batchable := fun c => (metas[c]?.map (·.batchable)).getD false }
       let region := fun c => (metas[c]?.map (·.region)).getD 0
       let alive := fun c => (metas[c]?.map (·.alive)).getD true
-      let rounds := resolve info batch prs [] 0
-      let model := sendBatch info batch rounds
+      let rounds0 := resolve info batch prs [] 0
+      -- Whether a back-off sleep is left early because every call to be retried has given up is a
+      -- race between the goroutine that `context.AfterFunc` starts and the sleep's timer (16 ms
+      -- and up): both outcomes are executions of the code. The model is run with the observed
+      -- `gone` sets first; if the implementation's result is not that one, the variants in which
+      -- some rounds' sleeps run to their end are tried (what happens then is still the model's
+      -- business: the next round, those calls ending with their own-context error).
+      let agreesWith := fun (m : Outcome Result) => match m with
+        | .ok mr => joinWith "." (mr.res.map slotStr) == resS && (if mr.allOK then "1" else "0") == okS &&
+                    queueStr mr.events == qS
+        | _ => false
+      let nR := rounds0.length
+      let variant := fun (mask : Nat) => rounds0.zipIdx.map fun (r, i) =>
+        if mask.testBit i then { r with gaveUp := fun _ => false } else r
+      let m0 := sendBatch info batch rounds0
+      let alt := if agreesWith m0 || !(prs.any (fun p => !p.gone.isEmpty)) then none
+        else (List.range (2 ^ (min nR 6))).findSome? fun mask =>
+          if mask = 0 then none else
+          let m := sendBatch info batch (variant mask)
+          if agreesWith m then some m else none
+      let model := alt.getD m0
       let impl := implSlots resS
       let valid := match batch with
         | [] => true
@@ -324,6 +343,7 @@ def handle : List String → String
             (if mr.events.any (fun e => match e with | .sleepCut _ => true | _ => false) then ["cancel-sleep"] else []) ++
             (if mr.events.any (fun e => match e with | .sleepLeft _ => true | _ => false) then ["sleep-left"] else []) ++
             (if prs.any (fun p => !p.gone.isEmpty) then ["own-gone"] else []) ++
+            (if alt.isSome then ["sleep-race"] else []) ++
             (if mr.events.any (fun e => match e with | .sleep _ => true | _ => false) then ["backoff"] else []) ++
             (if mr.res.any (fun s => match s.err with | some (.ownCtx _) => true | _ => false) then ["own-ctx"] else []) ++
             (if prs.any (fun p => p.loc.any (fun l => match l with | .error _ => true | _ => false)) then ["locate-error"] else []) ++
